@@ -197,6 +197,9 @@ type Case struct {
 	ID      int  `json:"id"`
 	Payload Spec `json:"payload"`
 	Result  Spec `json:"result"`
+	// DropMD: a request metadata key removed between the client encoder and the server
+	// (a client that does not send a required metadata attribute)
+	DropMD string `json:"drop_md,omitempty"`
 }
 
 // Method is what a generated driver hands over for one unary method.
@@ -270,6 +273,9 @@ func RunUnary(out io.Writer, m Method) {
 			if err != nil {
 				o.Stage, o.Err = "encode-request", err.Error()
 				return
+			}
+			if c.DropMD != "" {
+				md.Delete(c.DropMD)
 			}
 			o.ReqMsg, o.MD = Dump(reflect.ValueOf(reqMsg)), mdString(md)
 			fs := &fakeStream{hdr: metadata.MD{}, trlr: metadata.MD{}}
